@@ -78,22 +78,25 @@ Proof. intro H. apply find_some in H. apply has_attr_get, H. Qed.
 Lemma default_attr_name a x : default_attr a = Some x -> a_name x = a.
 Proof. unfold default_attr. destruct (inherit_default a); simpl; intro H; inversion H; reflexivity. Qed.
 
-Lemma resolve_inherit_name anc a x : resolve_inherit anc a = Some x -> a_name x = a.
+Lemma resolve_inherit_name anc a imp x : resolve_inherit anc a imp = Some x -> a_name x = a.
 Proof.
-  unfold resolve_inherit.
-  destruct (is_inheritable a).
-  - destruct (find (has_attr a) anc) as [l|].
-    + destruct (get_attr a l) eqn:G; intro H.
-      * inversion H; subst. eapply get_attr_name; eauto.
-      * eapply default_attr_name; eauto.
-    + apply default_attr_name.
-  - destruct anc as [|p r].
-    + apply default_attr_name.
-    + destruct (get_attr a p) eqn:G; intro H.
-      * inversion H; subst. eapply get_attr_name; eauto.
-      * eapply default_attr_name; eauto.
+  unfold resolve_inherit. destruct (resolve_inherit_src anc a); simpl; intro H; inversion H; reflexivity.
+Qed.
+(* the stored attribute carries the flag of the declaration itself *)
+Lemma resolve_inherit_flag anc a imp x : resolve_inherit anc a imp = Some x -> a_imp x = imp.
+Proof.
+  unfold resolve_inherit. destruct (resolve_inherit_src anc a); simpl; intro H; inversion H; reflexivity.
 Qed.
 
+Lemma resolve_value_flag anc tag a v imp x : resolve_value anc tag a v imp = Some x -> a_imp x = imp.
+Proof.
+  unfold resolve_value.
+  destruct (is_dropped_attr a); [discriminate|].
+  destruct (is_dropped_on tag a); [discriminate|].
+  destruct (allows_inherit_value a && String.eqb v inherit_keyword).
+  - apply resolve_inherit_flag.
+  - intro H; inversion H; reflexivity.
+Qed.
 Lemma resolve_value_name anc tag a v imp x : resolve_value anc tag a v imp = Some x -> a_name x = a.
 Proof.
   unfold resolve_value.
@@ -442,7 +445,8 @@ Proof.
   intros Hs Ec Hp. rewrite !css_variant_lookup by assumption.
   unfold resolve_value.
   destruct (is_dropped_attr p); [reflexivity|]. destruct (is_dropped_on (x_tag x) p); [reflexivity|].
-  destruct (allows_inherit_value p && String.eqb v inherit_keyword); reflexivity.
+  destruct (allows_inherit_value p && String.eqb v inherit_keyword); [|reflexivity].
+  unfold resolve_inherit. destruct (resolve_inherit_src anc p); reflexivity.
 Qed.
 
 (* the attribute spelling of a skipped property (style-only names, CSS-only image-rendering values,
@@ -616,7 +620,7 @@ Definition inheriting (p : AId) : bool := allows_inherit_value p && negb (is_dro
 
 Lemma resolve_value_inherit anc tag p i :
   allows_inherit_value p = true -> is_dropped_attr p = false -> is_dropped_on tag p = false ->
-  resolve_value anc tag p inherit_keyword i = resolve_inherit anc p.
+  resolve_value anc tag p inherit_keyword i = resolve_inherit anc p i.
 Proof.
   intros H1 H2 H3. unfold resolve_value. rewrite H1, H2, H3, String.eqb_refl. reflexivity.
 Qed.
@@ -638,10 +642,10 @@ Qed.
 
 (* for an inheritable property, a child saying `inherit` (in whatever source) sees what it would see
    without saying anything; with no ancestor to inherit from it sees the table default *)
-Theorem inherit_inheritable_lookup anc p self self' :
+Theorem inherit_inheritable_lookup anc p imp self self' :
   is_inheritable p = true ->
-  get_attr p self = None ->                      (* the child without the declaration *)
-  get_attr p self' = resolve_inherit anc p ->    (* the child with `p: inherit` *)
+  get_attr p self = None ->                          (* the child without the declaration *)
+  get_attr p self' = resolve_inherit anc p imp ->    (* the child with `p: inherit` *)
   option_map a_value (find_attribute self' anc p)
   = match option_map a_value (find_attribute self anc p) with
     | Some v => Some v
@@ -649,24 +653,24 @@ Theorem inherit_inheritable_lookup anc p self self' :
     end.
 Proof.
   intros Hi H0 H1. rewrite (find_attribute_skip self anc p Hi H0).
-  unfold resolve_inherit in H1. rewrite Hi in H1.
+  unfold resolve_inherit, resolve_inherit_src in H1. rewrite Hi in H1.
   destruct (find (has_attr p) anc) as [l|] eqn:F.
-  - destruct (find_has_attr _ _ _ F) as [y Hy]. rewrite Hy in *.
-    rewrite (find_attribute_self self' anc p y H1). reflexivity.
+  - destruct (find_has_attr _ _ _ F) as [y Hy]. rewrite Hy in *. simpl in H1.
+    rewrite (find_attribute_self self' anc p _ H1). reflexivity.
   - unfold default_attr in H1. destruct (inherit_default p) as [d|]; simpl in *.
     + rewrite (find_attribute_self self' anc p _ H1). reflexivity.
     + rewrite (find_attribute_skip self' anc p Hi H1), F. reflexivity.
 Qed.
 
-Theorem inherit_noninheritable_lookup anc p self' :
+Theorem inherit_noninheritable_lookup anc p imp self' :
   is_inheritable p = false ->
-  get_attr p self' = resolve_inherit anc p ->
+  get_attr p self' = resolve_inherit anc p imp ->
   lookup p self' = match anc with
                    | parent :: _ => match lookup p parent with Some v => Some v | None => inherit_default p end
                    | [] => inherit_default p
                    end.
 Proof.
-  intros Hi H1. unfold lookup. rewrite H1. unfold resolve_inherit. rewrite Hi.
+  intros Hi H1. unfold lookup. rewrite H1. unfold resolve_inherit, resolve_inherit_src. rewrite Hi.
   destruct anc as [|parent r].
   - unfold default_attr. destruct (inherit_default p); reflexivity.
   - destruct (get_attr p parent); [reflexivity|].
@@ -681,10 +685,10 @@ Lemma existsb_find_none {A} (f : A -> bool) l : existsb f l = false -> find f l 
 Proof.
   induction l as [|y r IH]; simpl; [reflexivity|]. destruct (f y); simpl; [discriminate | exact IH].
 Qed.
-Lemma resolve_inherit_default anc p :
-  no_inherit_source anc p = true -> resolve_inherit anc p = default_attr p.
+Lemma resolve_inherit_default anc p imp :
+  no_inherit_source anc p = true -> resolve_inherit anc p imp = option_map (with_flag p imp) (default_attr p).
 Proof.
-  unfold no_inherit_source, resolve_inherit. destruct (is_inheritable p).
+  unfold no_inherit_source, resolve_inherit, resolve_inherit_src. destruct (is_inheritable p).
   - intro H. apply negb_true_iff in H. rewrite (existsb_find_none _ _ H). reflexivity.
   - destruct anc as [|parent r]; [reflexivity|]. intro H. apply negb_true_iff, has_attr_false in H.
     rewrite H. reflexivity.
@@ -746,7 +750,8 @@ Lemma resolve_value_imp_value anc tag p v i j :
 Proof.
   unfold resolve_value.
   destruct (is_dropped_attr p); [reflexivity|]. destruct (is_dropped_on tag p); [reflexivity|].
-  destruct (allows_inherit_value p && String.eqb v inherit_keyword); reflexivity.
+  destruct (allows_inherit_value p && String.eqb v inherit_keyword); [|reflexivity].
+  unfold resolve_inherit. destruct (resolve_inherit_src anc p); reflexivity.
 Qed.
 
 (* the value every name resolves to does not depend on which source carries the declaration, nor on
@@ -775,7 +780,7 @@ Theorem inherit_inheritable anc x p sp n :
   find_value (build_attrs anc (declare x sp n p inherit_keyword)) anc p
   = match find_value (build_attrs anc x) anc p with Some v => Some v | None => inherit_default p end.
 Proof.
-  intros Hs Hp Hi Ha Hd Hok. unfold find_value. apply inherit_inheritable_lookup; try assumption.
+  intros Hs Hp Hi Ha Hd Hok. unfold find_value. apply (inherit_inheritable_lookup anc p (sp_imp sp)); try assumption.
   - apply silent_lookup. assumption.
   - rewrite declare_lookup by assumption. apply resolve_value_inherit; try assumption.
     apply presentation_not_dropped. assumption.
@@ -791,7 +796,7 @@ Theorem inherit_noninheritable anc x p sp n :
     | [] => inherit_default p
     end.
 Proof.
-  intros Hs Hp Hi Ha Hd Hok. apply inherit_noninheritable_lookup; try assumption.
+  intros Hs Hp Hi Ha Hd Hok. apply (inherit_noninheritable_lookup anc p (sp_imp sp)); try assumption.
   rewrite declare_lookup by assumption. apply resolve_value_inherit; try assumption.
   apply presentation_not_dropped. assumption.
 Qed.
@@ -832,20 +837,18 @@ Proof.
     rewrite declare_lookup, literal_resolve by assumption. reflexivity.
 Qed.
 
-(* ---- shadowed declarations (finding: `inherit` copies the source's important flag) ------------- *)
-(* KnownClass: the lower-precedence attribute resolves to an attribute flagged important *)
-Definition shadow_important (anc : list (list attr)) (tag : EId) (p : AId) (va : string) : bool :=
-  match resolve_value anc tag p va false with Some y => a_imp y | None => false end.
-
-Theorem shadowed_attr_guarded anc x p va vc ic l1 l2 c1 c2 :
+(* ---- shadowed declarations ---------------------------------------------------------------------------
+   A presentation attribute (never important, whatever it says - `inherit` included, since 7ac03db) does not
+   matter once a matched CSS declaration of the property exists.  (Before 7ac03db an `inherit` attribute copied
+   the important flag of its source and could then not be replaced: former class inherit-copies-important.) *)
+Theorem shadowed_attr anc x p va vc ic l1 l2 c1 c2 :
   silent p x = true -> x_attrs x = l1 ++ l2 -> x_css x = c1 ++ c2 ->
   is_presentation p = true -> attr_skipped (x_ignore_ids x) p va = false ->
   literal (x_tag x) p vc = true ->
-  shadow_important anc (x_tag x) p va = false ->
   lookup p (build_attrs anc (with_css (with_attrs x (l1 ++ (p, va) :: l2)) (c1 ++ dc p vc ic :: c2)))
   = lookup p (build_attrs anc (with_css x (c1 ++ dc p vc ic :: c2))).
 Proof.
-  intros Hs Ea Ec Hp Hk Hlit Hsh.
+  intros Hs Ea Ec Hp Hk Hlit.
   pose proof (sources_lookup anc x p (Some va) (Some (vc, ic)) None l1 l2 c1 c2 [] (x_style x)
                 Hs Ea Ec eq_refl Hp) as HA.
   pose proof (sources_lookup anc x p None (Some (vc, ic)) None l1 l2 c1 c2 [] (x_style x)
@@ -858,24 +861,10 @@ Proof.
   rewrite E1 in HA. rewrite E2 in HB. unfold lookup.
   rewrite HA by (intros v0 Hv; inversion Hv; subst; exact Hk).
   rewrite HB by (intros v0 Hv; discriminate).
-  rewrite (literal_resolve anc (x_tag x) p vc ic Hlit). unfold shadow_important in Hsh.
-  destruct (resolve_value anc (x_tag x) p va false) as [y|]; simpl; [|reflexivity].
-  rewrite Hsh. reflexivity.
+  rewrite (literal_resolve anc (x_tag x) p vc ic Hlit).
+  destruct (resolve_value anc (x_tag x) p va false) as [y|] eqn:R; simpl; [|reflexivity].
+  rewrite (resolve_value_flag _ _ _ _ _ _ R). reflexivity.
 Qed.
-
-Local Open Scope string_scope.
-Theorem shadowed_attr_refuted :
-  exists anc x p va vc,
-    silent p x = true /\ is_presentation p = true /\ literal (x_tag x) p vc = true /\
-    attr_skipped (x_ignore_ids x) p va = false /\
-    shadow_important anc (x_tag x) p va = true /\
-    lookup p (build_attrs anc (with_css (with_attrs x [(p, va)]) [dc p vc false]))
-    <> lookup p (build_attrs anc (with_css x [dc p vc false])).
-Proof.
-  exists [[mk A_Fill "green" true]], (xe E_Path false [] [] []), A_Fill, "inherit", "red".
-  repeat split; try (vm_compute; reflexivity). vm_compute. discriminate.
-Qed.
-Local Close Scope string_scope.
 
 (* ---- font-size: explicit `inherit` re-resolves the copied *specified* value ---------------------- *)
 Local Open Scope Q_scope.
